@@ -127,4 +127,47 @@ def sub (p : DtPoint) (secs : Int) : DtPoint := ⟨trunc (p.inst - secs), 0⟩
 def diff (p q : DtPoint) : Int := p.inst - q.inst
 end DtPoint
 
+/-! ### the `lru_cache`d helpers of `ISO8601Point` across calendar switches
+
+`_iso_point_add`, `_iso_point_sub_interval`, `_iso_point_sub_point`, `_iso_point_cmp` are
+`functools.lru_cache`d static methods called with `(string, string, CALENDAR.mode)`: the calendar mode
+is passed only to be part of the cache key, because the result computed from the two strings depends
+on the calendar in force (`20000301T0000Z - P1D` is `20000229T0000Z`, `20000230T0000Z` or
+`20000228T0000Z`).  One process may switch calendars (`init(cycling_mode=...)`).  The model is generic
+in the cached computation `f : mode → (string × string) → β`. -/
+
+/-- the key under which a call made under calendar `mode` is cached: with the mode (`keyed`), or the
+two strings only -/
+def cacheKey (keyed : Bool) (mode : Nat) (args : String × String) : (String × String) × Option Nat :=
+  (args, if keyed then some mode else none)
+
+/-- lookup in the cache (an association list, oldest entry first) -/
+def cacheLook {β : Type} (k : (String × String) × Option Nat) :
+    List (((String × String) × Option Nat) × β) → Option β
+  | [] => none
+  | (k', v) :: t => if k' = k then some v else cacheLook k t
+
+/-- one call of an `lru_cache(cap)`d helper under calendar `mode`: a hit returns the stored result,
+a miss computes `f mode args`, stores it and evicts the oldest entry beyond `cap` entries
+(`cap = 0`: no caching); a hit makes the entry the most recently used one. -/
+def cachedCall {β : Type} (keyed : Bool) (cap : Nat) (f : Nat → String × String → β)
+    (c : List (((String × String) × Option Nat) × β)) (mode : Nat) (args : String × String) :
+    List (((String × String) × Option Nat) × β) × β :=
+  if cap = 0 then (c, f mode args)
+  else
+    match cacheLook (cacheKey keyed mode args) c with
+    | some v => (c.filter (fun e => e.1 != cacheKey keyed mode args) ++ [(cacheKey keyed mode args, v)], v)
+    | none =>
+      let v := f mode args
+      let c' := c ++ [(cacheKey keyed mode args, v)]
+      (if c'.length > cap then c'.tail else c', v)
+
+/-- the answers of a history of calls `(mode, args)` made in one process, starting with cache `c` -/
+def cachedRun {β : Type} (keyed : Bool) (cap : Nat) (f : Nat → String × String → β) :
+    List (((String × String) × Option Nat) × β) → List (Nat × (String × String)) → List β
+  | _, [] => []
+  | c, (m, a) :: rest =>
+    let r := cachedCall keyed cap f c m a
+    r.2 :: cachedRun keyed cap f r.1 rest
+
 end CylcModel.Points
